@@ -358,9 +358,12 @@ def _decrypt_hmac(key: bytes, data: bytes, digest: str) -> bytes:
     cipher = _create_cipher(key, iv)
 
     decrypted = cipher.decrypt(encrypted)
-    if decrypted[-1] <= 16:
-        # PKCS#7 padding
-        decrypted = decrypted[: -decrypted[-1]]
+    pad = decrypted[-1]
+    if pad <= 16:
+        # PKCS#7 padding, every padding byte carries the padding length
+        if pad == 0 or decrypted[-pad:] != bytes([pad]) * pad:
+            raise ValueError("Invalid padding")
+        decrypted = decrypted[:-pad]
 
     # We don't do any secret crypto so we don't care about the warning in the docs about timing attacks
     # Truncated variants (HMAC-SHA-1-128) only store the first digest_size bytes of the digest
